@@ -42,6 +42,14 @@ CHECKS = [
          text="EventStream.tla models the stream actor's Receive one message per step together with the dead-letter path of SendLocal and the missing-remote path of send; TLC enumerates all sequences of subscribe / unsubscribe / broadcast / subscriber-stops / send to nil, never spawned, stopped and foreign targets with nil and non-nil senders, checks finiteness (no dead-letter chains; liveness: the stream's inbox drains) and computes what every subscriber must see; each sequence is executed on a real engine and every subscriber's recorded log of DeadLetterEvent / EngineRemoteMissingEvent (target, message id, sender) must equal TLC's. A send that blocks, or events that keep flowing after the last operation, are violations.",
          note="<= 4 (quick) / 5 (thorough) operations, 2 subscribers, one stopped-but-subscribed actor at a time; operations issued from one driver goroutine at quiescence",
          ref="4/C09"),
+    dict(id="C10", engine="actor-scenario", technique="TLC exhaustive on Actor.tla with SpawnAgain (duplicate spawn while registered, respawn after stop) + B-scenario replay; histories judged by TLC (T_C10)",
+         text="Spawn of an id that was spawned before is an environment action of Actor.tla: while the actor is registered it must publish ActorDuplicateIdEvent and change nothing (Producer not run, pending messages delivered once and in order), after the actor has gone it starts a fresh process. Replayed at every settled point of the lifecycle (before Started, with messages pending, during a graceful drain, after a crash). The recorded histories must satisfy: an actor handling anything but its final Stopped is resolvable through Registry.GetPID, every new incarnation follows a Stopped one, one DuplicateIdEvent per duplicate spawn, Producer invocations = incarnations seen.",
+         note="sequential histories (spawns issued at settled states); concurrent spawns of one id racing inside Registry.add are NOT covered yet (needs the lock-level B-graph of Registry.tla, see DESIGN.md section 8)",
+         ref="4/C10"),
+    dict(id="C11", engine="reqresp-scenario", technique="TLC exhaustive on ReqResp.tla + B-scenario replay of every maximal history (cmd/reqscen); deadline races by a free-running stress judged by the clauses that hold for either outcome",
+         text="ReqResp.tla models Request (one-shot Response under a fresh PID), replies into the one-slot channel or to dead letter, Result returning a reply or timing out and unregistering either way; TLC checks correlation, unregistration and late-reply-is-dead-letter over all histories of 2..3 concurrent requests with 0..3 replies each placed before / during / after Result, and exports each history with its outcomes; each is executed on a real engine (real timeouts) and outcomes, dead letters, registry state and 'no timeout before the deadline' are compared. Regression configs (fixed response PID; unregister only on timeout) must fail in TLC.",
+         note="replies are placed clearly on one side of the deadline in the scenarios; a second reply that would block the responder on the full channel is not generated; the deadline race itself is exercised free-running with both outcomes accepted",
+         ref="4/C11"),
     dict(id="C12", engine="event-scenario", technique="TLC exhaustive on EventStream.tla + B-scenario replay (cmd/evscen); lifecycle events: published events of the Actor.tla scenarios compared with the model's (cmd/actorscen)",
          text="All sequences of Subscribe / Unsubscribe (with the subscribed PID object or an equal copy) and BroadcastEvent from two broadcaster goroutines over two subscribers are enumerated by TLC, which checks got = want for the abstract by-value subscription and exports the expected per-subscriber logs; each sequence is replayed on a real engine and the recorded logs must be equal (exactly once, broadcast order, nothing after Unsubscribe, no duplicates on double Subscribe). The engine's own lifecycle events are checked on the steered Actor.tla scenarios: the multiset of started / stopped / restarted / max-restarts / dead-letter events seen by a subscribed monitor must equal the model's.",
          note="sequenced broadcasters (issue order = inbox order); <= 4/5 operations; lifecycle part restricted to steered, non-racy scenarios",
@@ -100,10 +108,12 @@ def main():
         "engines": [
             {"name": "inbox-graph", "path": "harness/cmd/inboxgraph", "serves_properties": ["C01", "C02", "C03"],
              "kind_free_text": "TLC state graph of Inbox.tla replayed edge by edge on the real Inbox through gate shims (B-graph)"},
-            {"name": "actor-scenario", "path": "harness/cmd/actorscen", "serves_properties": ["C04", "C05", "C06", "C07", "C08", "C13"],
+            {"name": "actor-scenario", "path": "harness/cmd/actorscen", "serves_properties": ["C04", "C05", "C06", "C07", "C08", "C10", "C13"],
              "kind_free_text": "TLC behaviours of Actor.tla replayed on the real engine with gated deliveries; histories validated by TLC against ActorProps.tla (B-scenario)"},
             {"name": "event-scenario", "path": "harness/cmd/evscen", "serves_properties": ["C09", "C12"],
              "kind_free_text": "operation sequences of EventStream.tla replayed on a real engine with recording subscribers (B-scenario)"},
+            {"name": "reqresp-scenario", "path": "harness/cmd/reqscen", "serves_properties": ["C11"],
+             "kind_free_text": "request/response histories of ReqResp.tla replayed on a real engine (B-scenario) + deadline-race stress"},
             {"name": "wire-table", "path": "harness/cmd/wiretable", "serves_properties": ["C15", "C16"],
              "kind_free_text": "cases enumerated by TLC from Wire.tla executed on the real stream writer / reader (B-table)"},
             {"name": "ring-table", "path": "harness/cmd/ringtable", "serves_properties": ["C14"],
